@@ -1,8 +1,10 @@
 """C07 — subscriptions() returns every applicable subscriber, with multiplicity, in order."""
-from . import regcommon
+from . import regcommon, worldcommon
 
 THEOREMS = ["ZI.Lv.find_update", "ZI.Lv.find_remove"]
 PROFILE = dict(weights=[0.5, 0.2, 7, 2.5, 0.6, 0.1, 0], queries=["lookupAll", "subs", "book"], nregs=(1, 3), extra_queries=4, arity=[0, 1, 1, 1, 2, 2, 3])
+# "every reachable state" includes states reached by declaration and hierarchy changes on the required specifications
+WORLD_PROFILE = dict(weights=[0.5, 0.2, 5, 1.5, 2.5, 2.5, 2, 0.5, 0.1], nregs=(1, 3), extra=1, provq=0, arity=[1, 2, 2, 3])
 
 
 def check(tier):
@@ -11,7 +13,8 @@ def check(tier):
         "subscribe/unsubscribe histories with duplicates, equal-but-distinct values, handlers (provided None), arity 0-3, registry chains; "
         "distinct_nontrivial = subscriptions() results with >=3 entries, each checked as a multiset and for the three ordering clauses",
         "subscription_results_ge3",
-        "registry-layer correspondence (ZI.Registry.subscribe/unsubscribe/subscriptions vs adapter.py)")
+        "registry-layer correspondence (ZI.Registry.subscribe/unsubscribe/subscriptions vs adapter.py)",
+        extra_stream=worldcommon.twin_stream("C07", WORLD_PROFILE, dict(quick=30, thorough=600), ("subs", "subscribers")))
 
 
 def replay(path):
